@@ -309,3 +309,46 @@ package storage
 //@   loop 1 invariant nxt: next == nil || (next.Start > old(start) && pidx(next) == 0)
 //@   loop 1 invariant behind: forall k :: 0 <= k && k < range_i ==> sc.lst[k].End <= start || (next != nil && sc.lst[k].Start >= next.Start)
 //@   loop 1 invariant nearest: next != nil ==> next.Start > start && next.End > old(start) && (exists m :: 0 <= m && m < range_i && sc.lst[m] == next)
+//
+//@ section C19
+// ---- file snapshots (backup source): a closed segment is copied as it lies and is never reopened; an open one is pinned ----
+//@ func segment.snapshotClosed
+//@   assumed hard-links the quiescent segment directory (file system); touches no life-cycle field
+//@   pure
+//@ func segment.snapshotOpen
+//@   assumed hard-links the live files through the series index and the shard tables (external); touches no life-cycle field
+//@   pure
+//
+// snapshotInto: a segment flagged for deletion is skipped; a closed segment (index == nil) stays closed with its reference
+// count untouched - it is handed to snapshotClosed only while closed; an open segment is handed to snapshotOpen only
+// while pinned (reference count raised by one, the index captured under the lock), and the pin is given back exactly once.
+//@ func segment.snapshotInto
+//@   mode int
+//@   opt wrap int32
+//@   requires s != nil && 0 <= s.refCount && s.refCount < 2147483647
+//@   modifies s.refCount
+//@   modifies s.index
+//@   at-call segment.snapshotClosed requires only-while-closed: s.index == nil && s.refCount == old(s.refCount) && s.mustBeDeleted == 0
+//@   at-call segment.snapshotOpen requires only-while-pinned: s.index != nil && arg1 == s.index && s.refCount == old(s.refCount) + 1 && s.mustBeDeleted == 0
+//@   ensures  flagged-skipped: s.mustBeDeleted != 0 ==> !result0 && result1 == nil
+//@   ensures  never-reopens: old(s.index) == nil ==> s.index == nil
+//@   ensures  undisturbed: s.index == old(s.index) && s.refCount == old(s.refCount)
+//
+//@ func segmentController.copySegments
+//@   assumed copies the controller list under its read lock
+//@   pure
+//@   ensures forall k :: 0 <= k && k < len(result) ==> result[k] != nil && pidx(result[k]) == 0
+//
+// database.TakeFileSnapshot: no segment is reopened or left pinned, and a failed snapshot removes what it had written.
+//@ func database.TakeFileSnapshot
+//@   mode int
+//@   opt wrap int32
+//@   requires d != nil && d.segmentController != nil
+//@   requires forall s *segment :: 0 <= s.refCount && s.refCount < 2147483647
+//@   modifies allof(segment.refCount)
+//@   modifies allof(segment.index)
+//@   ensures  none-reopened: forall s *segment :: old(s.index) == nil ==> s.index == nil
+//@   ensures  none-left-pinned: forall s *segment :: s.refCount == old(s.refCount)
+//@   loop 0 invariant err == nil
+//@   loop 0 invariant forall s *segment :: s.index == old(s.index) && s.refCount == old(s.refCount)
+//@   loop 0 invariant forall k :: 0 <= k && k < len(segments) ==> segments[k] != nil && pidx(segments[k]) == 0
